@@ -49,12 +49,13 @@ Record same (w w' : world) : Prop := mkSame {
   sm_done : forall t, done_sleep w' t = done_sleep w t;
   sm_ne : ne_ready w' = ne_ready w;
   sm_now : now w' = now w;
+  sm_cfg : cfg w' = cfg w;
   sm_ready : exists l, ready w' = ready w ++ l /\ Forall (fun r => fst r = None) l }.
 
 Lemma same_refl w : same w w. Proof. constructor; try reflexivity. exists []. rewrite app_nil_r. split; [reflexivity|constructor]. Qed.
 Lemma same_trans a b c : same a b -> same b c -> same a c.
 Proof.
-  intros [A1 A2 A3 A4 A5 A6 A7 A8 A9 A10 A11 (l1 & A12 & A13)] [B1 B2 B3 B4 B5 B6 B7 B8 B9 B10 B11 (l2 & B12 & B13)].
+  intros [A1 A2 A3 A4 A5 A6 A7 A8 A9 A10 A11 Ac (l1 & A12 & A13)] [B1 B2 B3 B4 B5 B6 B7 B8 B9 B10 B11 Bc (l2 & B12 & B13)].
   constructor; try congruence; try (intros; rewrite ?B5, ?B6, ?B7, ?B9; auto; fail).
   exists (l1 ++ l2). rewrite B12, A12, app_assoc. split; [reflexivity|apply Forall_app; auto].
 Qed.
@@ -63,7 +64,7 @@ Proof. intros [A1 A2 _ _ _ _ _ _ _ _ _ _]. unfold tided, tmr. rewrite A1, A2. re
 
 Lemma same_G X w w' : same w w' -> GP X w -> GP X w'.
 Proof.
-  intros Hs [H1 H2 H3 H4 H5 H6 H7 H8 H9]. pose proof (same_tided _ _ Hs) as Ht. destruct Hs as [A1 A2 A3 A4 A5 A6 A7 A8 A9 A10 A11 A12].
+  intros Hs [H1 H2 H3 H4 H5 H6 H7 H8 H9]. pose proof (same_tided _ _ Hs) as Ht. destruct Hs as [A1 A2 A3 A4 A5 A6 A7 A8 A9 A10 A11 Ac A12].
   constructor; rewrite ?Ht, ?A3, ?A4; try assumption.
   - intros st a k tid. rewrite A5. apply H3.
   - intros st a. rewrite A5. apply H4.
